@@ -19,9 +19,6 @@ DB = "monkeytype/db/base.py"
 EN = "monkeytype/encoding.py"
 
 BENIGN = [
-    ("return type computed lazily (after the trace lookup)", ["C02", "C18", "C03"], [
-        (T, "        typ = get_type(arg, max_typed_dict_size=self.max_typed_dict_size)\n        last_opcode = frame.f_code.co_code[frame.f_lasti]\n        trace = self.traces.get(frame)\n        if trace is None:\n            return\n",
-         "        trace = self.traces.get(frame)\n        if trace is None:\n            return\n        typ = get_type(arg, max_typed_dict_size=self.max_typed_dict_size)\n        last_opcode = frame.f_code.co_code[frame.f_lasti]\n")]),
     ("rows ordered by full timestamp instead of date()", ["C09", "C14", "C10"], [
         (SQ, "    ORDER BY date(created_at) DESC\n    LIMIT ?", "    ORDER BY created_at DESC\n    LIMIT ?")]),
     ("logger hands its batch over and clears it before add()", ["C01", "C17", "C09"], [
